@@ -145,11 +145,12 @@ class Builtin(Value):
 class Term(Value):
     """Opaque symbolic value."""
 
-    def __init__(self, op: str, *args, hint: ClassInfo = None, node=None):
+    def __init__(self, op: str, *args, hint: ClassInfo = None, node=None, pytype: str = None):
         self.op = op
         self.args = args
         self.hint = hint
         self.node = node
+        self.pytype = pytype  # "int" / "str" / "bytes" / "bool" when the value's Python type is known
 
     def __repr__(self):
         return f"Term<{show(self)}>"
@@ -331,6 +332,10 @@ def same_value(a, b):
             if r is None:
                 res = None
         return res
+    if isinstance(a, Term) and a.pytype and isinstance(b, Const) and (b.v is None or type(b.v).__name__ not in (a.pytype, "bool" if a.pytype == "int" else a.pytype, "int" if a.pytype == "bool" else a.pytype)):
+        return False
+    if isinstance(b, Term) and b.pytype and isinstance(a, Const) and (a.v is None or type(a.v).__name__ not in (b.pytype, "bool" if b.pytype == "int" else b.pytype, "int" if b.pytype == "bool" else b.pytype)):
+        return False
     if isinstance(a, Term) and isinstance(b, Term) and show(a) == show(b):
         return None  # syntactically equal terms: probably equal, but not decided
     return None
@@ -524,6 +529,7 @@ class Interp:
         res = c == 0
         memo[id(v)] = (v, res)
         self.emit("assume", node, cond=v, truth=res)
+        self.learn_from(v, res)
         return res
 
     def truth_of(self, v):
@@ -1264,7 +1270,16 @@ class Interp:
         if op == "Add" and isinstance(l, Lst) and isinstance(r, Lst):
             return Lst(l.items + r.items)
         sym = {"Add": "+", "Sub": "-", "Mult": "*", "Div": "/", "Mod": "%", "FloorDiv": "//", "BitOr": "|", "BitAnd": "&", "LShift": "<<", "RShift": ">>", "Pow": "**"}.get(op, op)
-        return Term("binop", sym, l, r, node=node)
+        def _ty(x):
+            if isinstance(x, Const):
+                return type(x.v).__name__
+            return getattr(x, "pytype", None)
+        pt = None
+        if op in ("Add", "Sub", "Mult", "FloorDiv", "Mod") and _ty(l) == "int" and _ty(r) == "int":
+            pt = "int"
+        elif op == "Add" and _ty(l) == "str" and _ty(r) == "str":
+            pt = "str"
+        return Term("binop", sym, l, r, node=node, pytype=pt)
 
     def ex_Compare(self, e, frame):
         left = self.eval(e.left, frame)
@@ -1291,6 +1306,10 @@ class Interp:
                 pass
             if s is not None:
                 return Const(s if op in ("Eq", "Is") else not s)
+            if op in ("Eq", "NotEq"):
+                d = self.decide_by_bounds("==" if op == "Eq" else "!=", l, r)
+                if d is not None:
+                    return Const(d)
             return Term("cmp", {"Eq": "==", "NotEq": "!=", "Is": "is", "IsNot": "is not"}[op], l, r, node=node)
         if op in ("In", "NotIn"):
             items = None
@@ -1328,7 +1347,69 @@ class Interp:
             except Exception:
                 pass
         sym = {"Lt": "<", "LtE": "<=", "Gt": ">", "GtE": ">="}[op]
+        d = self.decide_by_bounds(sym, l, r)
+        if d is not None:
+            return Const(d)
         return Term("cmp", sym, l, r, node=node)
+
+    # ---- integer interval facts about individual Term objects (keyed by identity) ----
+    def bounds_of(self, t):
+        return self.__dict__.setdefault("_bounds", {}).get(id(t), (None, None, None))[1:]
+
+    def _norm_cmp(self, sym, l, r):
+        """-> (term, op, k) with the term on the left, or None."""
+        if isinstance(l, Term) and isinstance(r, Const) and isinstance(r.v, int) and not isinstance(r.v, bool):
+            return l, sym, r.v
+        if isinstance(r, Term) and isinstance(l, Const) and isinstance(l.v, int) and not isinstance(l.v, bool):
+            flip = {"<": ">", "<=": ">=", ">": "<", ">=": "<=", "==": "==", "!=": "!="}[sym]
+            return r, flip, l.v
+        return None
+
+    def decide_by_bounds(self, sym, l, r):
+        n = self._norm_cmp(sym, l, r)
+        if n is None:
+            return None
+        t, op, k = n
+        lo, hi = self.bounds_of(t)
+        if op == "<":
+            if hi is not None and hi < k: return True
+            if lo is not None and lo >= k: return False
+        if op == "<=":
+            if hi is not None and hi <= k: return True
+            if lo is not None and lo > k: return False
+        if op == ">":
+            if lo is not None and lo > k: return True
+            if hi is not None and hi <= k: return False
+        if op == ">=":
+            if lo is not None and lo >= k: return True
+            if hi is not None and hi < k: return False
+        if op == "==":
+            if lo is not None and hi is not None and lo == hi == k: return True
+            if (lo is not None and lo > k) or (hi is not None and hi < k): return False
+        if op == "!=":
+            if lo is not None and hi is not None and lo == hi == k: return False
+            if (lo is not None and lo > k) or (hi is not None and hi < k): return True
+        return None
+
+    def learn_from(self, cond, truth):
+        if not (isinstance(cond, Term) and cond.op == "cmp"):
+            return
+        n = self._norm_cmp(cond.args[0], cond.args[1], cond.args[2]) if cond.args[0] in ("<", "<=", ">", ">=", "==", "!=") else None
+        if n is None:
+            return
+        t, op, k = n
+        if not truth:
+            op = {"<": ">=", "<=": ">", ">": "<=", ">=": "<", "==": "!=", "!=": "=="}[op]
+        lo, hi = self.bounds_of(t)
+        if op == "<": hi = k - 1 if hi is None else min(hi, k - 1)
+        elif op == "<=": hi = k if hi is None else min(hi, k)
+        elif op == ">": lo = k + 1 if lo is None else max(lo, k + 1)
+        elif op == ">=": lo = k if lo is None else max(lo, k)
+        elif op == "==": lo, hi = k, k
+        elif op == "!=":
+            if lo is not None and lo == k: lo = k + 1
+            if hi is not None and hi == k: hi = k - 1
+        self.__dict__.setdefault("_bounds", {})[id(t)] = (t, lo, hi)
 
     def eq_override(self, l, r):
         f = self.opts.get("eq_oracle")
@@ -1549,6 +1630,8 @@ class Interp:
             self.maybe_raise(ev)
             return t2
         t = Term("call", callee, tuple(args), kwt, node=node)
+        if isinstance(callee, Term) and callee.op == "attr":
+            t.pytype = METHOD_RESULT_TYPES.get(callee.args[1])
         hook = self.opts.get("call_hint")
         if hook is not None:
             t.hint = hook(callee, args, kwargs)
@@ -1612,7 +1695,7 @@ class Interp:
                 return Const(len(a.pairs))
             if isinstance(a, Const) and isinstance(a.v, (str, bytes)):
                 return Const(len(a.v))
-            return Term("call", Builtin(name), tuple(args), ())
+            return Term("call", Builtin(name), tuple(args), (), pytype="int")
         if name == "getattr" and len(args) in (2, 3) and isinstance(args[1], Const):
             base, attr = args[0], args[1].v
             if isinstance(base, Obj):
@@ -1670,8 +1753,13 @@ class Interp:
                 ts = [self.truth_of(x) for x in items]
                 if all(t is not None for t in ts):
                     return Const(any(ts) if name == "any" else all(ts))
-        if name == "min" and len(args) == 2 and all(isinstance(a, Const) for a in args):
-            return Const(min(args[0].v, args[1].v))
+        if name in ("min", "max") and len(args) == 2:
+            if all(isinstance(a, Const) for a in args):
+                return Const(min(args[0].v, args[1].v) if name == "min" else max(args[0].v, args[1].v))
+            if all((isinstance(a, Const) and isinstance(a.v, int)) or (isinstance(a, Term) and a.pytype == "int") for a in args):
+                return Term("call", Builtin(name), tuple(args), (), pytype="int")
+        if name == "int" and len(args) == 1 and not isinstance(args[0], Const):
+            return Term("call", Builtin(name), tuple(args), (), pytype="int")
         if name == "callable" and len(args) == 1 and isinstance(args[0], (Fn, Cls)):
             return Const(True)
         if name in ("Exception", "ValueError", "TypeError", "KeyError", "IndexError", "AssertionError", "NotImplementedError", "AttributeError", "BaseException"):
@@ -1802,6 +1890,14 @@ class Interp:
 
 class _NoFork(Exception):
     pass
+
+
+METHOD_RESULT_TYPES = {
+    "find": "int", "rfind": "int", "index": "int", "rindex": "int", "count": "int", "tell": "int",
+    "getvalue": "str", "strip": "str", "lstrip": "str", "rstrip": "str", "lower": "str", "upper": "str",
+    "decode": "str", "encode": "bytes", "startswith": "bool", "endswith": "bool", "is_set": "bool", "isdigit": "bool",
+    "hexdigest": "str", "join": "str", "format": "str", "replace": "str",
+}
 
 
 EXC_PARENTS = {
